@@ -166,6 +166,20 @@ def run(ctx):
     callers = sorted({c[0] for c in P.callers(SERVER + "::new")})
     ctx.check("shared-state", "Server-built-on-its-worker-thread", callers == ["roughenough_server::polling_loop"] and any(q == "roughenough_server::polling_loop" for q, bb in P.callees(entry)),
               "Server::new runs inside the worker thread (polling_loop)", "Server::new is called from %s" % callers)
+    # every worker builds its Server from the same configuration object, one after the other under the mutex.  They only get the same long-term
+    # key, port and limits if nobody changes that object once the workers exist: no call in the server binary or library takes the shared
+    # configuration by `&mut` (after construction it is only ever read)
+    muts = []
+    for f in P.fns.values():
+        if f.path.startswith("roughenough_client") or f.path.startswith("roughenough_kms") or f.derived:
+            continue
+        for bb, t in f.calls():
+            a0 = (t.get("arg_tys") or [""])[0]
+            if a0.startswith("&mut") and "ServerConfig" in a0:
+                muts.append((f, bb, strip_generics(t["fn"].get("path", ""))))
+    ctx.check("shared-state", "shared-config-is-read-only", not muts, "no call takes the shared `dyn ServerConfig` (or its mutex guard) mutably: every worker reads the same configuration",
+              "%s takes the shared configuration mutably (%s): a worker that starts later builds its Server from a different configuration than the first one "
+              "(another long-term key, port or limit)" % (muts[0][0].path if muts else None, muts[0][2] if muts else None), muts[0][0].loc(muts[0][1]) if muts else None)
     # ------------------------------------------------------------------ (4) per-worker behaviour: the single-worker structure rules of C09 must hold
     import importlib
     from framework import Ctx
